@@ -453,7 +453,7 @@ Proof.
     destruct pending; [exact G1|].
     pose proof (process_min_good s1 G1) as G2. destruct (process_min K s1) as [s2 did]. cbn [fst] in *.
     destruct did; exact G2.
-  - exact G.
+  - idle_cases; exact G.
   - eapply same_core_good; [| | |apply (report_failures_good s (cache s) G)]; reflexivity.
   - pose proof (refresh_good _ G) as G0.
     pose proof (all_empty_scan_good (refresh K s) (cache (refresh K s)) true G0) as G1.
